@@ -5,9 +5,21 @@ CFG = {
     'ocaml_pkgs': 'zarith,coq-core.kernel',
     'ocaml_flags': '-rectypes -thread',
     'axioms': [
+        # the standard library's axioms of the classical real numbers (what Print Assumptions reports for Reals/Flocq)
         'ClassicalDedekindReals.sig_forall_dec',
         'ClassicalDedekindReals.sig_not_dec',
         'FunctionalExtensionality.functional_extensionality_dep',
+        'Classical_Prop.classic',
+        # NOT logical axioms: kernel primitives (`Primitive` declarations of Coq.Floats.PrimFloat and
+        # Coq.Numbers.Cyclic.Int63.PrimInt63), which Print Assumptions lists because they have no body. They occur
+        # in the four theorems that mention the generated float tables (decoded exactly with Prim2SF). No FloatAxioms
+        # (add_spec, Prim2SF_valid, ...) are used.
+        'PrimFloat.float', 'PrimFloat.abs', 'PrimFloat.div', 'PrimFloat.eqb', 'PrimFloat.ltb',
+        'PrimFloat.frshiftexp', 'PrimFloat.normfr_mantissa',
+        'PrimInt63.int', 'PrimInt63.eqb', 'PrimInt63.land', 'PrimInt63.lsr',
+        # same primitives as printed when Coq.Floats is imported unqualified
+        'float', 'abs', 'div', 'ltb', 'frshiftexp', 'normfr_mantissa',
+        'PrimFloat.add', 'PrimFloat.sub', 'PrimFloat.mul', 'PrimFloat.leb', 'add', 'sub', 'mul', 'leb',
     ],
     'uses_gen': True,
     'rule': 'public API SpacePoint::try_from(Avalanche{t, phi, z}) compared bit for bit with the extracted PrimFloat model: '
